@@ -519,6 +519,16 @@ func runRR(c *c03case) {
 		}
 		kvs = append(kvs, kv{k, p.LocIsNull(), loc})
 	}
+	// two records under one key would be one multi-value record in the database
+	for i := range kvs {
+		for j := i + 1; j < len(kvs); j++ {
+			if bytes.Equal(kvs[i].k, kvs[j].k) {
+				o.St = "err"
+				o.Msg = "two range points with the same key"
+				return
+			}
+		}
+	}
 	// the driver's search key: client address masked to its prefix, prefix length
 	ma := maskTo(un16(c.Q.A), c.Q.Plen)
 	sk := append(append([]byte{}, ma[:]...), byte(c.Q.Plen))
